@@ -44,9 +44,10 @@ COMPONENTS = {
 }
 PLAN = {
     "quick": {"budget_s": 40, "max_runs": 10 ** 7,
-              "variants": ["receiver_short", "receiver_long", "sender_short", "sender_long"]},
+              "variants": ["receiver_short", "receiver_long", "sender_short", "sender_long", "receiver_in_connection"]},
     "thorough": {"budget_s": 600, "max_runs": 10 ** 9,
-                 "variants": ["receiver_short", "receiver_long", "sender_short", "sender_long"]},
+                 "variants": ["receiver_short", "receiver_long", "sender_short", "sender_long",
+                              "receiver_in_connection"]},
 }
 
 RX_SHORT_N = 8
@@ -946,6 +947,20 @@ WALKS = {"receiver_short": 1, "receiver_long": 1, "sender_short": 1, "sender_lon
 
 def run_one(seed, tier="quick", variant=None, replay=None):
     variant = variant or "receiver_short"
+    if variant == "receiver_in_connection":
+        # the receive half as the connection drives it: a key-holding peer sends STREAM / RESET_STREAM frames
+        # with offsets, lengths and final sizes around what is already fixed (the forged histories of checks.c07),
+        # judged here only for the final-size clause of this property
+        from checks import c07
+
+        out = c07.run_one(seed, tier=tier, variant="limits", replay=replay)
+        if out.violation is not None:
+            if "FINAL_SIZE" in out.violation["discriminator"]:
+                out.violation["oracle"] = "c10.final-size-in-connection"
+            else:
+                out.violation = None
+                out.summary["reason"] = "done"
+        return out
     if variant not in WALKS:
         raise ValueError("unknown variant %r" % (variant,))
     _aq()
